@@ -171,6 +171,9 @@ class HDocDerived(HDocSample):
         """
 
 
+_SHARED_NOTES = None
+
+
 @h_doc
 class HDocNoted:
     """A user's class that annotates its methods in the help (the documented _get_hdoc_method_notes hook)"""
@@ -185,7 +188,26 @@ class HDocNoted:
             return BoundMethodNotes(False, CHText(_c.warn("busy")), CHText(_c.tag("busy")))
         if name == "plain_notes":
             return BoundMethodNotes(True, "ok", "ok")
+        if name in ("shared_a", "shared_b"):
+            # the application made its notes objects once, at start-up, and hands out the same ones for every
+            # method, object and request
+            global _SHARED_NOTES
+            if _SHARED_NOTES is None:
+                _SHARED_NOTES = BoundMethodNotes(True, CHText("<cached>"), CHText("served from the cache"))
+            return _SHARED_NOTES
         return BoundMethodNotes(True, "", "a note line only")
+
+    def shared_a(self):
+        """First of two methods with one notes object
+
+        #extra
+        """
+
+    def shared_b(self, key):
+        """Second of two methods with one notes object
+
+        #extra
+        """
 
     def same_text(self):
         """Not available here
